@@ -15,6 +15,7 @@ Spec on impl: reverse_*(p, RayGeometry(p)) == direct(p.reverse(), RayGeometry(p.
              ray for ray, in both units; attenuation equal in both directions.
 """
 import math
+import warnings
 import numpy as np
 
 from common import Check, close
@@ -50,6 +51,10 @@ while len(meta) < want and tries < 40 * want:
     if tries % 12 == 0:
         geom = snellexact.grazing_geometry(rng)      # a block leg within 2 degrees of grazing
         chk.count(near_grazing_leg=geom is not None)
+    elif tries % 12 == 5:
+        # every wall met exactly along its normal (walls tilted by a whole number of degrees)
+        geom = snellexact.normal_incidence_geometry(rng)
+        chk.count(normal_incidence_on_tilted_walls=geom is not None)
     elif tries % 6 == 2:
         # flat walls: the interfaces, their normal-side flags and kinds and the paths come from the LIBRARY
         # (block_in_immersion.make_interfaces / make_paths, 0..2 wall reflections), only the rays are set by hand
@@ -123,6 +128,16 @@ while len(meta) < want and tries < 40 * want:
         impl[("fwd", unit)] = complex(model.transmission_reflection_for_path(path, rg, unit=spell[unit])[0, 0])
         impl[("rev", unit)] = complex(model.reverse_transmission_reflection_for_path(path, rg, unit=spell[unit])[0, 0])
         impl[("fwd_of_reversed", unit)] = complex(model.transmission_reflection_for_path(rpath, rrg, unit=spell[unit])[0, 0])
+    # the non-default real-arithmetic option (force_complex=False): where a refracted wave is evanescent both sides are
+    # undefined (NaN) together; everywhere else they agree as above
+    with np.errstate(all="ignore"), warnings.catch_warnings():
+        warnings.simplefilter("ignore")
+        try:
+            impl[("rev_real", "stress")] = complex(np.asarray(model.reverse_transmission_reflection_for_path(path, rg, force_complex=False))[0, 0])
+            impl[("fwd_of_reversed_real", "stress")] = complex(np.asarray(model.transmission_reflection_for_path(rpath, rrg, force_complex=False))[0, 0])
+        except Exception as e_:      # noqa: BLE001
+            impl[("rev_real", "stress")] = impl[("fwd_of_reversed_real", "stress")] = complex("nan")
+            impl["real_option_error"] = repr(e_)
     impl["bs"] = float(model.beamspread_2d_for_path(rg)[0, 0])
     impl["rbs"] = float(model.reverse_beamspread_2d_for_path(rg)[0, 0])
     impl["bs_of_reversed"] = float(model.beamspread_2d_for_path(rrg)[0, 0])
@@ -152,7 +167,8 @@ while len(meta) < want and tries < 40 * want:
     # which regime: any coefficient beyond a critical angle?
     crit = any(geom["c_l"] / v * np.sin(a) > 1 for v, a in zip(geom["vels"], geom["inc"]))
     chk.count(modes="".join(geom["modes"][1:]), beyond_L_critical=bool(crit), attenuation=att is not None)
-    meta.append(dict(geom={k: geom[k] for k in ("src", "phi", "vels", "legs", "inc", "out", "modes", "rho_f", "rho_s",
+    meta.append(dict(normal_family="tilt_degrees" in geom,
+                     geom={k: geom[k] for k in ("src", "phi", "vels", "legs", "inc", "out", "modes", "rho_f", "rho_s",
                                                  "c_f", "c_l", "c_t", "last_len")},
                      walls=[(list(w[0]), w[1], w[2]) for w in geom["walls"]], att=att, impl=impl, unit_spelling=spell))
 
@@ -181,6 +197,19 @@ for m, o in zip(meta, outs):
             spec_ok = False
             chk.violation(f"transrefl:{unit}", f"reverse transmission-reflection product ({unit}) differs from the direct "
                           "product on the reversed path", dict(m, unit=unit, impl={str(k): v for k, v in impl.items()}))
+    if m.get("normal_family"):
+        # a ray along the normals of all its walls: every term is defined (finite) in both directions
+        undefined_ = [str(k) for k, v in impl.items() if isinstance(v, (float, complex)) and v != v]
+        if undefined_:
+            spec_ok = False
+            chk.violation("normal-incidence:undefined", f"terms {undefined_} are NaN on a ray that meets every wall exactly along its normal",
+                          dict(m, impl={str(k): v for k, v in impl.items()}))
+    a_, b_ = impl[("rev_real", "stress")], impl[("fwd_of_reversed_real", "stress")]
+    if "real_option_error" in impl or (a_ != a_) != (b_ != b_) or (a_ == a_ and not close(a_, b_, TOL, ATOL)):
+        spec_ok = False
+        chk.violation("transrefl:force_complex=False", "with force_complex=False the reverse transmission-reflection product and the direct "
+                      "product on the reversed path differ (one undefined and the other not, or different values)",
+                      dict(m, impl={str(k): v for k, v in impl.items()}))
     if not close(impl["rbs"], impl["bs_of_reversed"], TOL):
         spec_ok = False
         chk.violation("beamspread", "reverse beamspread differs from the beamspread of the reversed path",
